@@ -288,14 +288,18 @@ def core_checked(bindir, wss, fails, stats=None):
 #    statement lists exactly the covered functions.
 #  * group lexprep: tools/translate/t_bangops.py regenerates coq/gen/GenBangOps.v from the CURRENT index/bang_operator.rs;
 #    props/BangOpsSource.v: every rendered arm is Indexer.index_bang as a (result, state) pair, for all 51 operators.
+#  * group lexprep: tools/translate/t_typ.py regenerates coq/gen/GenTyp.v from the CURRENT symbol_map/typ.rs; props/TypSource.v:
+#    element_typ / is_* / find_field / can_be_casted_to are Scope.element_typ / is_* / ty_find_field / can_cast for all inputs, and
+#    the enum declaration and the TY! table are what t_indexer / t_bangops assume.
 #  * group outline: tools/translate/t_handlers.py regenerates coq/gen/GenHandlers.v from the CURRENT handlers/goto_definition.rs and
 #    handlers/references.rs `exec`; props/HandlersSource.v: the rendering is SymbolMap.goto_definition / SymbolMap.references.
-INDEXER_TRANSLATORS = ["t_indexer", "t_bangops"]
+INDEXER_TRANSLATORS = ["t_indexer", "t_bangops", "t_typ"]
 # HandlersSource.v also states C20_dispatch_is_source, whose cone needs GenCompletion.v (t_completion) and GenFoldKinds.v
 HANDLER_TRANSLATORS = ["t_foldkinds", "t_completion", "t_handlers"]
 INDEXER_SOURCE_THEOREMS = ["Indexer_model_is_source_partial"]
 BANGOPS_SOURCE_THEOREMS = ["BangOps_model_is_source_partial", "BangOps_covered_ops_complete", "BangOps_all_arms_rendered",
                            "BangOps_model_is_source_all"]
+TYP_SOURCE_THEOREMS = ["Typ_model_is_source", "Typ_tables_are_source"]
 HANDLERS_SOURCE_THEOREMS = ["Goto_model_is_source", "References_model_is_source"]
 INDEXER_SOURCE_TRUSTED = (
     "for Core programs the hand models are ALSO tied to their source by translation + proof: coq/model/{Scope,Indexer}.v for the "
@@ -305,9 +309,13 @@ INDEXER_SOURCE_TRUSTED = (
     "check_template_args, Context::new / finish, the salsa entry point `index`); "
     "coq/model/BangOps.v + Indexer.index_bang for ALL 51 operators of index/bang_operator.rs (t_bangops -> coq/gen/GenBangOps.v; "
     "props/BangOpsSource.v BangOps_model_is_source_all with BangOps_covered_ops_complete and BangOps_all_arms_rendered; "
-    "design/notes-translator-bangops.md); trusted there: the translators t_indexer / t_bangops (Rust subset readers) and the "
-    "vocabulary files coq/model/IndexerSrc.v, BangOpsSrc.v.  typ.rs (Typ.v: can_be_casted_to, the element / bits typing helpers) and "
-    "the AST accessor table stay trusted tables, tied by the correspondence run only")
+    "design/notes-translator-bangops.md); the type functions of coq/model/Scope.v (element_typ, is_bits / is_list / is_record, "
+    "ty_find_field, can_cast) for symbol_map/typ.rs, for all inputs, together with the enum declaration and the TY! table the two "
+    "other translators assume (t_typ -> coq/gen/GenTyp.v; props/TypSource.v Typ_model_is_source, Typ_tables_are_source; relative "
+    "to the plain depth-first is_subclass_of / find_field of Scope.v, whose equality with record.rs's visited-set versions is "
+    "C05_subclass_visited_set / C05_field_lookup_visited_set; design/notes-translator-typ.md); trusted there: the translators "
+    "t_indexer / t_bangops / t_typ (Rust subset readers) and the vocabulary files coq/model/IndexerSrc.v, BangOpsSrc.v.  The AST "
+    "accessor table stays a trusted table, tied by the correspondence run only")
 HANDLERS_SOURCE_TRUSTED = (
     "handlers/goto_definition.rs and handlers/references.rs `exec` are tied to SymbolMap.goto_definition / SymbolMap.references by "
     "translation + proof (t_handlers -> coq/gen/GenHandlers.v rendered on every run; props/HandlersSource.v Goto_model_is_source, "
@@ -318,6 +326,7 @@ HANDLERS_SOURCE_TRUSTED = (
 SOURCE_TIES = [
     ("IndexerSource", "TG.Props.IndexerSource", INDEXER_SOURCE_THEOREMS, "props/IndexerSource.vo", INDEXER_SOURCE_TRUSTED),
     ("BangOpsSource", "TG.Props.BangOpsSource", BANGOPS_SOURCE_THEOREMS, "props/BangOpsSource.vo", None),
+    ("TypSource", "TG.Props.TypSource", TYP_SOURCE_THEOREMS, "props/TypSource.vo", None),
 ]
 HANDLER_TIES = [
     ("HandlersSource", "TG.Props.HandlersSource", HANDLERS_SOURCE_THEOREMS, "props/HandlersSource.vo", HANDLERS_SOURCE_TRUSTED),
